@@ -24,6 +24,16 @@ Ref = z3.DeclareSort('Ref')
 _cnt = itertools.count()
 
 
+_keep_alive = []
+
+
+def MP(*terms):
+    """z3.MultiPattern that keeps its argument terms referenced: z3py's MultiPattern rebinds its argument tuple
+    before calling the C API, so temporaries can be freed under it ('invalid argument')"""
+    _keep_alive.append(terms)
+    return z3.MultiPattern(*terms)
+
+
 def fresh_name(base: str) -> str:
     return f"{base}!{next(_cnt)}"
 
